@@ -9,6 +9,7 @@ export MUTANT_WORKTREE="$W"
 if [ ! -e "$W/.git" ]; then mkdir -p "$(dirname "$W")"; git -C /repo worktree add --detach "$W" HEAD -q || exit 3; fi
 files=("$@"); [ ${#files[@]} -eq 0 ] && files=("$HERE"/selftest/mutants/*.patch)
 for f in "${files[@]}"; do
+  f="$(readlink -f "$f")"
   name="$(basename "$f" .patch)"; id="${name%%_*}"
   git -C "$W" checkout -q --detach "$(git -C /repo rev-parse HEAD)" 2>/dev/null
   git -C "$W" checkout -q -- .; git -C "$W" clean -fdq -e target
